@@ -535,6 +535,11 @@ def enumerate_sharded(tier, shard, nshards):
         cfgs.append({'sched': True, 'causes': list(pair)})
     cfgs.append({'sched': True, 'causes': ['sdisc', 'sdisc']})
     cfgs.append({'sched': True, 'causes': ['cdisc', 'cdisc']})
+    # another transport is refused on the victim's namespace while the
+    # victim's termination is in progress, then a second cause arrives
+    for a, b in (('cdisc', 'lose'), ('sdisc', 'cdisc'), ('sdisc', 'lose'),
+                 ('lose', 'sdisc')):
+        cfgs.append({'sched': True, 'causes': [a, 'refuse', b]})
     for i, cfg in enumerate(cfgs):
         if i % nshards != shard:
             continue
@@ -575,8 +580,11 @@ def _sched_execute(case):
             await gate('handler:' + ns)
         return h
     for ns in ('/', '/x'):
-        sio.on('connect', lambda sid, environ, auth=None: None, namespace=ns)
+        sio.on('connect', lambda sid, environ, auth=None:
+               False if auth == {'refuse': 1} else None, namespace=ns)
         sio.on('disconnect', mk_disc(ns), namespace=ns)
+    tr = w.open()
+    sock_r = w.h.eio.sockets[w.t[tr]]
     t = w.open()
     ci, _ = w.connect(t, '/')
     co, _ = w.connect(t, '/x')
@@ -600,6 +608,8 @@ def _sched_execute(case):
             return sock.receive(ep.Packet(ep.MESSAGE, '1'))
         if name == 'odisc':
             return sock.receive(ep.Packet(ep.MESSAGE, '1/x,'))
+        if name == 'refuse':
+            return sock_r.receive(ep.Packet(ep.MESSAGE, '0{"refuse":1}'))
         return sock.close(wait=False, abort=True,
                           reason=w.h.reason.TRANSPORT_ERROR)
     tasks = []
@@ -624,7 +634,7 @@ def _sched_execute(case):
             s.trace.append(('release', g[0]))
     loop.run_until_idle()
     return s, {'w': w, 'log': log, 'tasks': tasks, 'victim': victim,
-               'other': other, 'by': by, 'gates': gates}
+               'other': other, 'by': by, 'gates': gates, 'tr': tr}
 
 
 def _sched_judge(case, s, o):
@@ -666,6 +676,9 @@ def _sched_judge(case, s, o):
             raise Violation('other-namespace-affected', what)
         if not m.is_connected(by['sid'], '/'):
             raise Violation('bystander-affected', what)
+        if m.sid_from_eio_sid(w.t[o['tr']], '/') is not None:
+            raise Violation('membership-retained', 'refused transport '
+                            '[%s]' % what)
         # nothing is delivered to the victim any more; the bystander and
         # the surviving namespace still get their traffic
         w.recv_all()
